@@ -12,6 +12,7 @@ pub mod amplification;
 pub mod ack_manager;
 pub mod cids;
 pub use crate::connection::verif_close_sender as close_sender;
+pub use crate::connection::verif_reset_map as reset_map;
 pub use crate::stream::verif_data_sender as data_sender;
 pub use crate::stream::verif_flow as flow;
 pub mod recovery;
